@@ -166,3 +166,4 @@ c15!(c15_t_eof_o16, 19, 2, 16, false);
 c15!(c15_t_keepalive_o08, 14, 3, 8, false);
 c15!(c15_t_keepalive_o11, 14, 3, 11, false);
 c15!(c15_t_prompt_o08, 11, 4, 8, false);
+
